@@ -1018,10 +1018,10 @@ theorem run_idNext (g0 g : State) (w : WPc) (sw : SPc) (cl : List CPc) (res : Li
 
 /-- Layer A: bringing the expiry index up to date in `put_or_update` (verbatim from `clientUpsert`). -/
 def upIndexA (s1 : State) (id : Nat) (uw : Option Int) (old new : Option Nat) : State × Option Int :=
-  let existing : Int := match s1.adm.kw.get? id with | some wk => wk.weight | none => 0
+  let existing : Option Int := (s1.adm.kw.get? id).map (·.weight)
   match typeOfExpiryUpdate old new with
-  | .added n => (ttlPut s1 id n, match uw with | some x => some x | none => some (existing + s1.cfg.ttlEntry))
-  | .deleted old => (ttlDelete s1 id old, match uw with | some x => some x | none => some (existing - s1.cfg.ttlEntry))
+  | .added n => (ttlPut s1 id n, match uw with | some x => some x | none => existing.map (· + s1.cfg.ttlEntry))
+  | .deleted old => (ttlDelete s1 id old, match uw with | some x => some x | none => existing.map (· - s1.cfg.ttlEntry))
   | .updated old n => (ttlUpdate s1 id old n, uw)
   | .nothing => (s1, uw)
 
@@ -1510,13 +1510,20 @@ theorem run_visit (g : State) (w : WPc) (cl : List CPc) (res : List (List Out)) 
       exact this
     | some wk =>
       simp only []
-      rw [sweeperRun_other _ _ _ (by simp) (by simp)]
-      simp only [sweeperAct, wuFree, Option.isNone_none, Bool.true_or, Bool.not_true, Bool.false_eq_true, if_false]
-      rw [sweeperRun_other _ _ _ (by simp) (by simp)]
-      simp only [sweeperAct]
-      have := hcont (.store now shard (rest.filter (fun p => p.1 != v)) v wk) m (by omega)
-      simp only [visitG, hdue, if_true, sweepEvict, Adm.delete, hk] at this
-      exact this
+      by_cases hu : unexpiredWithId { g with ttl := g.ttl.del (shard, v) } wk.key v = true
+      · -- the value stored under the key id has not itself expired: both layers leave it
+        simp only [hu, if_true]
+        have := hcont (.kwRemove now shard (rest.filter (fun p => p.1 != v)) v) (m + 2) (by omega)
+        simp only [visitG, hdue, if_true, sweepEvict, hk, hu] at this
+        exact this
+      · simp only [hu, Bool.false_eq_true, if_false]
+        rw [sweeperRun_other _ _ _ (by simp) (by simp)]
+        simp only [sweeperAct, wuFree, Option.isNone_none, Bool.true_or, Bool.not_true, Bool.false_eq_true, if_false]
+        rw [sweeperRun_other _ _ _ (by simp) (by simp)]
+        simp only [sweeperAct]
+        have := hcont (.store now shard (rest.filter (fun p => p.1 != v)) v wk) m (by omega)
+        simp only [visitG, hdue, if_true, sweepEvict, Adm.delete, hk, hu, Bool.false_eq_true, if_false] at this
+        exact this
   · simp only [hdue, if_false]
     have := hcont (.entry now shard rest) (m + 3) (by omega)
     simp only [visitG, hdue, if_false] at this
@@ -1588,7 +1595,11 @@ theorem visitG_keep (now shard : Nat) (g : State) (p : Nat × Nat) :
   split
   · simp only []
     split
-    · exact applyEvictId_sweeperKeep _ _
+    · split
+      · rfl
+      · split
+        · exact applyEvictId_sweeperKeep _ _
+        · rfl
     · rfl
   · rfl
 
@@ -1683,6 +1694,8 @@ theorem evictId_eq (g : State) (id : Nat) :
       match g.adm.kw.get? id with
       | none => g
       | some wk =>
+        if unexpiredWithId g wk.key id then g      -- the value stored under the key id has not itself expired (fix 1)
+        else
         { g with adm := { g.adm with kw := g.adm.kw.del id, used := g.adm.used - wk.weight },
                  store := if (g.store.get? wk.key).map (·.id) = some id then g.store.del wk.key else g.store,
                  stats := { g.stats with
@@ -1692,7 +1705,9 @@ theorem evictId_eq (g : State) (id : Nat) :
   unfold evictId sweepEvict Adm.delete
   cases h : g.adm.kw.get? id with
   | none => rfl
-  | some wk => simp only [applyEvictId_closed]
+  | some wk =>
+    simp only [applyEvictId_closed]
+    split <;> rfl
 
 theorem amap_contains_del {α β : Type} [DecidableEq α] (m : AMap α β) (a b : α) :
     (m.del a).contains b = if a = b then false else m.contains b := by
@@ -1721,6 +1736,50 @@ theorem evictMatch_after (st : AMap Nat Entry) {a b : Nat} (ka kb : Nat) (hab : 
     · rw [AMap.get?_del_other _ hk]
   · rw [if_neg hm]
 
+/-- the hook leaves a key id alone whose stored value has not itself expired -/
+theorem evictId_skip (g : State) (id : Nat) (wk : WKey) (hk : g.adm.kw.get? id = some wk)
+    (hu : unexpiredWithId g wk.key id = true) : evictId g id = g := by
+  rw [evictId_eq, hk]
+  simp only [hu, if_true]
+
+/-- the hook for `a` does not touch the charge of another key id -/
+theorem evictId_kw_other (g : State) {a b : Nat} (hab : a ≠ b) :
+    (evictId g a).adm.kw.get? b = g.adm.kw.get? b := by
+  rw [evictId_eq]
+  split
+  · rfl
+  · split
+    · rfl
+    · exact AMap.get?_del_other _ hab
+
+/-- **The re-validation of the ticker's hook for `b` sees the same thing before and after the hook for another id `a`**:
+    the hook for `a` changes the store only at `a`'s key and only if the entry there carries `a` — and then the check for
+    `b` at that key failed before (other id) and fails after (no entry). No hypothesis on the keys is needed. -/
+theorem unexpired_after_evict (g : State) {a b : Nat} (kb : Nat) (hab : a ≠ b) :
+    unexpiredWithId (evictId g a) kb b = unexpiredWithId g kb b := by
+  rw [evictId_eq]
+  split
+  · rfl
+  · rename_i wa _
+    split
+    · rfl
+    · unfold unexpiredWithId
+      simp only []
+      by_cases hm : (g.store.get? wa.key).map (·.id) = some a
+      · rw [if_pos hm]
+        by_cases hk : wa.key = kb
+        · subst hk
+          rw [AMap.get?_del_same]
+          cases hs : g.store.get? wa.key with
+          | none => rfl
+          | some e =>
+            rw [hs] at hm
+            simp only [Option.map_some, Option.some.injEq] at hm
+            have : (e.id == b) = false := by rw [hm]; simpa using hab
+            simp only [this, Bool.false_and]
+        · rw [AMap.get?_del_other _ hk]
+      · rw [if_neg hm]
+
 theorem evictId_comm (g : State) (a b : Nat) : evictId (evictId g a) b = evictId (evictId g b) a := by
   by_cases hab : a = b
   · subst hab; rfl
@@ -1728,39 +1787,64 @@ theorem evictId_comm (g : State) (a b : Nat) : evictId (evictId g a) b = evictId
     cases ha : g.adm.kw.get? a with
     | none =>
       have e1 : evictId g a = g := by rw [evictId_eq, ha]
-      have e2 : (evictId g b).adm.kw.get? a = none := by
-        rw [evictId_eq]; cases hb : g.adm.kw.get? b <;> simp [ha, AMap.get?_del_other _ hba]
+      have e2 : (evictId g b).adm.kw.get? a = none := by rw [evictId_kw_other g hba, ha]
       rw [e1, evictId_eq (evictId g b) a, e2]
     | some wa =>
       cases hb : g.adm.kw.get? b with
       | none =>
         have e1 : evictId g b = g := by rw [evictId_eq, hb]
-        have e2 : (evictId g a).adm.kw.get? b = none := by
-          rw [evictId_eq]; simp [ha, hb, AMap.get?_del_other _ hab]
+        have e2 : (evictId g a).adm.kw.get? b = none := by rw [evictId_kw_other g hab, hb]
         rw [e1, evictId_eq (evictId g a) b, e2]
       | some wb =>
-        rw [evictId_eq g a, evictId_eq g b, ha, hb]
-        simp only []
-        rw [evictId_eq, evictId_eq]
-        have ma := evictMatch_after g.store wb.key wa.key hba
-        have mb := evictMatch_after g.store wa.key wb.key hab
-        simp only [AMap.get?_del_other _ hab, AMap.get?_del_other _ hba, ha, hb, State.mk.injEq, Adm.mk.injEq,
-          Stats.mk.injEq, true_and, and_true, ma, mb]
-        refine ⟨?_, ⟨by omega, amap_del_comm _ _ _⟩, ?_, wr_comm _ _ _⟩
-        · by_cases h1 : (g.store.get? wa.key).map (·.id) = some a <;>
-            by_cases h2 : (g.store.get? wb.key).map (·.id) = some b <;>
-            simp only [h1, h2, if_true, if_false]
-          exact amap_del_comm _ _ _
-        · omega
+        cases hua : unexpiredWithId g wa.key a with
+        | true =>
+          -- `a` is left alone, before and after the hook for `b`
+          rw [evictId_skip g a wa ha hua,
+            evictId_skip (evictId g b) a wa (by rw [evictId_kw_other g hba, ha])
+              (by rw [unexpired_after_evict g wa.key hba, hua])]
+        | false =>
+          cases hub : unexpiredWithId g wb.key b with
+          | true =>
+            rw [evictId_skip g b wb hb hub,
+              evictId_skip (evictId g a) b wb (by rw [evictId_kw_other g hab, hb])
+                (by rw [unexpired_after_evict g wb.key hab, hub])]
+          | false =>
+            -- both are taken out: the checks of the second hooks fail as well, the two removals commute
+            have ca := unexpired_after_evict g wb.key hab
+            have cb := unexpired_after_evict g wa.key hba
+            rw [hub] at ca
+            rw [hua] at cb
+            rw [evictId_eq g a, ha] at ca
+            rw [evictId_eq g b, hb] at cb
+            simp only [hua, hub, Bool.false_eq_true, if_false] at ca cb
+            rw [evictId_eq g a, evictId_eq g b, ha, hb]
+            simp only [hua, hub, Bool.false_eq_true, if_false]
+            rw [evictId_eq, evictId_eq]
+            have ma := evictMatch_after g.store wb.key wa.key hba
+            have mb := evictMatch_after g.store wa.key wb.key hab
+            simp only [AMap.get?_del_other _ hab, AMap.get?_del_other _ hba, ha, hb, ca, cb, Bool.false_eq_true, if_false,
+              State.mk.injEq, Adm.mk.injEq, Stats.mk.injEq, true_and, and_true, ma, mb]
+            refine ⟨?_, ⟨by omega, amap_del_comm _ _ _⟩, ?_, wr_comm _ _ _⟩
+            · by_cases h1 : (g.store.get? wa.key).map (·.id) = some a <;>
+                by_cases h2 : (g.store.get? wb.key).map (·.id) = some b <;>
+                simp only [h1, h2, if_true, if_false]
+              exact amap_del_comm _ _ _
+            · omega
 
 theorem evictId_ttl (g : State) (id : Nat) : (evictId g id).ttl = g.ttl := by
-  rw [evictId_eq]; split <;> rfl
+  rw [evictId_eq]
+  split
+  · rfl
+  · split <;> rfl
 
 theorem evictId_with_ttl (g : State) (t : AMap (Nat × Nat) Nat) (id : Nat) :
     evictId { g with ttl := t } id = { evictId g id with ttl := t } := by
   rw [evictId_eq, evictId_eq]
-  simp only []
-  split <;> rfl
+  have hu : ∀ k, unexpiredWithId { g with ttl := t } k id = unexpiredWithId g k id := fun _ => rfl
+  simp only [hu]
+  split
+  · rfl
+  · split <;> rfl
 
 /-- what one visited entry does to the expiry index -/
 def visitTtl (now shard : Nat) (t : AMap (Nat × Nat) Nat) (p : Nat × Nat) : AMap (Nat × Nat) Nat :=
@@ -1901,7 +1985,10 @@ theorem shardEntries_nodup (g : State) (hnd : AMap.NoDup g.ttl) : ((shardEntries
       exact ih hnd.2
 
 theorem evictId_keep (g : State) (id : Nat) : (evictId g id).sweeperKeep = g.sweeperKeep := by
-  rw [evictId_eq]; split <;> rfl
+  rw [evictId_eq]
+  split
+  · rfl
+  · split <;> rfl
 
 theorem foldl_evictId_keep (l : List Nat) : ∀ (g : State), (l.foldl evictId g).sweeperKeep = g.sweeperKeep := by
   induction l with
@@ -2016,9 +2103,13 @@ theorem sweeper_refines (b : BState) (vs : List Nat) (fuel : Nat)
     simp [sweepStep, halive, sweeperRun, sweeperAct]
 
 /-- Non-vacuity: a shard with two due entries and one that is not due; both visiting orders of the three ids are
-    valid, the index has unique keys, and both orders end in the state of `sweepStep`. -/
+    valid, the index has unique keys, and both orders end in the state of `sweepStep`. The stored values carry the
+    deadlines the index has (since fix 1 the sweeper looks at them: with `exG`'s store, whose values have no deadline,
+    nothing is evicted — `exSStale` below). -/
 def exS : State :=
-  { exG with now := 5 * nsPerSec, ttl := [((1, 2), 10), ((1, 1), 20), ((1, 3), 9 * nsPerSec), ((2, 7), 5)] }
+  { exG with now := 5 * nsPerSec,
+             store := [(101, ⟨1, 1, some 20, false⟩), (102, ⟨2, 2, some 10, false⟩), (103, ⟨3, 3, some (9 * nsPerSec), false⟩)],
+             ttl := [((1, 2), 10), ((1, 1), 20), ((1, 3), 9 * nsPerSec), ((2, 7), 5)] }
 
 example :
     (shardEntries exS = [(2, 10), (1, 20), (3, 9 * nsPerSec)]) ∧
@@ -2028,6 +2119,43 @@ example :
     (match sweeperRun 14 { g := exS, cl := [] } [2, 1, 3], sweepStep exS with
       | .ok b', .ok (g', _) => some (gview b'.g == gview g', b'.g.ttl)
       | _, _ => none) = some (true, [((1, 3), 9 * nsPerSec), ((2, 7), 5)]) := by
+  decide
+
+/-- The state this example used before fix 1: the same index over `exG`'s store, whose values have NO deadline (the
+    index entries of ids 2 and 1 are stale — what an upsert that removed the deadline leaves behind until its
+    `ttl.delete` runs). Before the fix both layers evicted keys 102 and 101 here; now the re-validation
+    (`unexpiredWithId`) makes both layers leave them: nothing is evicted, the store and the charges are as they were,
+    only the two due index entries go — and the two layers still agree, for both visiting orders. -/
+def exSStale : State := { exS with store := exG.store }
+
+example :
+    (shardEntries exSStale = [(2, 10), (1, 20), (3, 9 * nsPerSec)]) ∧
+    (match sweeperRun 14 { g := exSStale, cl := [] } [3, 1, 2], sweepStep exSStale with
+      | .ok b', .ok (g', .swept ev) =>
+        some (gview b'.g == gview g', b'.sw matches .begin, ev.length,
+          gview g' == { gview exSStale with ttl := [((1, 3), 9 * nsPerSec), ((2, 7), 5)] })
+      | _, _ => none) = some (true, true, 0, true) ∧
+    (match sweeperRun 14 { g := exSStale, cl := [] } [2, 1, 3], sweepStep exSStale with
+      | .ok b', .ok (g', _) => some (gview b'.g == gview g', b'.g.ttl)
+      | _, _ => none) = some (true, [((1, 3), 9 * nsPerSec), ((2, 7), 5)]) := by
+  decide
+
+/-- the hypotheses of `evictId_skip` hold of `exSStale` and id 2 (charged, its stored value has no deadline); those of
+    `unexpired_after_evict` / `evictId_kw_other` are only `a ≠ b` -/
+example :
+    exSStale.adm.kw.get? 2 = some ⟨102, 12, 4⟩ ∧ unexpiredWithId exSStale 102 2 = true ∧
+    unexpiredWithId exS 102 2 = false ∧ gview (evictId exSStale 2) = gview exSStale ∧
+    gview (evictId exS 2) ≠ gview exS := by
+  decide
+
+/-- `evictId_comm` / `unexpired_after_evict` need no hypothesis on the keys: here two charged ids share a key (id 2's
+    charge names key 101 — a state no run reaches), the store entry of that key carries id 1 and has expired; the
+    hooks for 1 and 2 commute, and the check for 1 is the same before and after the hook for 2. -/
+example :
+    let g : State := { exS with adm := { exS.adm with kw := [(1, ⟨101, 11, 2⟩), (2, ⟨101, 12, 4⟩), (3, ⟨103, 13, 3⟩)] } }
+    gview (evictId (evictId g 1) 2) = gview (evictId (evictId g 2) 1) ∧
+    unexpiredWithId (evictId g 2) 101 1 = unexpiredWithId g 101 1 ∧
+    (evictId (evictId g 1) 2).store.contains 101 = false ∧ (evictId (evictId g 1) 2).adm.kw.length = 1 := by
   decide
 
 /-! ### what `.parked` means -/
@@ -2664,7 +2792,10 @@ theorem step_client_worker (g : State) (c : Nat) (r : Req) (o : Oracle) (g' : St
             | some x => exact key (some x)
 
 theorem evictId_worker (g : State) (id : Nat) : (evictId g id).worker = g.worker := by
-  rw [evictId_eq]; split <;> rfl
+  rw [evictId_eq]
+  split
+  · rfl
+  · split <;> rfl
 
 theorem foldl_evictId_worker (l : List Nat) : ∀ (g : State), (l.foldl evictId g).worker = g.worker := by
   induction l with
